@@ -65,6 +65,11 @@ func (v *BasicSeqnoValidator) validate(ctx context.Context, _ peer.ID, m *Messag
 	var seqno uint64
 	seqnoBytes := m.GetSeqno()
 	if len(seqnoBytes) > 0 {
+		if len(seqnoBytes) < 8 {
+			// a truncated sequence number cannot be decoded (Uint64 would
+			// panic); the message is malformed, don't propagate it
+			return ValidationIgnore
+		}
 		seqno = binary.BigEndian.Uint64(seqnoBytes)
 	}
 
